@@ -1354,6 +1354,16 @@ Proof.
     rewrite ety_EMap. rewrite Ha. reflexivity.
 Qed.
 
+(* a value slot: [sval], or the empty literal retyped to the slot's type ( x = []  with x:[]num ) *)
+Definition sval0 (F : list funcdef) (G : tyenv) (t : ty) (e : expr) : bool :=
+  sval F G t e || (ty_decl t && zero_lit t e).
+
+Lemma sval0_ety F G t e : sval0 F G t e = true -> ety F G e = Some t.
+Proof.
+  unfold sval0. intros H. apply orb_true_iff in H as [H|H]; [apply sval_ety; exact H|].
+  apply andb_true_iff in H as [Hd Hz]. apply zero_lit_ety; assumption.
+Qed.
+
 Fixpoint swt_stmt (F : list funcdef) (ret : option ty) (inloop : bool) (G : tyenv) (s : stmt) {struct s}
   : option tyenv :=
   let swt_stmts := fix swt_stmts (inloop : bool) (G : tyenv) (l : list stmt) : option tyenv :=
@@ -1366,13 +1376,13 @@ Fixpoint swt_stmt (F : list funcdef) (ret : option ty) (inloop : bool) (G : tyen
       match G with
       | fr :: G' =>
           if binder_ok n && negb (is_some (sget n fr))
-             && ty_decl t && (sval F G t e || zero_lit t e)
+             && ty_decl t && sval0 F G t e
           then Some (((n, t) :: fr) :: G') else None
       | [] => None
       end
   | SAssign target e =>
       match target_sty G target with
-      | Some st => if ann_ok F G target && sval F G (ty_of st) e then Some G else None
+      | Some st => if ann_ok F G target && sval0 F G (ty_of st) e then Some G else None
       | None => None
       end
   | SCallStmt name args =>
@@ -1383,7 +1393,7 @@ Fixpoint swt_stmt (F : list funcdef) (ret : option ty) (inloop : bool) (G : tyen
   | SReturn None => match ret with Some TNone => Some G | _ => None end
   | SReturn (Some e) =>
       match ret with
-      | Some t => if sval F G t e then Some G else None
+      | Some t => if sval0 F G t e then Some G else None
       | None => None
       end
   | SBreak => if inloop then Some G else None
@@ -1586,8 +1596,7 @@ Proof.
     match type of H with (if ?c then _ else _) = _ => destruct c eqn:Ec; [|discriminate] end.
     apply andb_true_iff in Ec as [Ec Ev]. rewrite Ec. simpl.
     apply andb_true_iff in Ec as [_ Ed].
-    assert (ety F (fr :: G0) e = Some t) as ->.
-    { apply orb_true_iff in Ev as [Ev|Ev]; [apply sval_ety; exact Ev|apply zero_lit_ety; assumption]. }
+    assert (ety F (fr :: G0) e = Some t) as -> by (apply sval0_ety; exact Ev).
     rewrite opt_ty_eqb_refl. exact H.
   - (* assignment *)
     cbn [swt_stmt] in H. cbn [wt_stmt].
@@ -1595,7 +1604,7 @@ Proof.
     match type of H with (if ?c then _ else _) = _ => destruct c eqn:Ec; [|discriminate] end.
     apply andb_true_iff in Ec as [Ea Ev].
     destruct (target_sty_spec G a st Et) as [Hs Hshape].
-    rewrite (ann_sty_ety F G a st Ea Hs), (sval_ety F G _ _ Ev), ty_eqb_same, andb_true_r.
+    rewrite (ann_sty_ety F G a st Ea Hs), (sval0_ety F G _ _ Ev), ty_eqb_same, andb_true_r.
     destruct a; try contradiction; try exact H.
     destruct Hshape as (u & Hu). cbn [ann_ok] in Ea.
     apply andb_true_iff in Ea as [Ea _]. apply andb_true_iff in Ea as [Ea _]. apply andb_true_iff in Ea as [Ea _].
@@ -1608,9 +1617,10 @@ Proof.
   - (* return *)
     cbn [swt_stmt] in H. cbn [wt_stmt]. destruct e as [e|]; [|exact H].
     destruct ret as [t|]; [|discriminate].
-    destruct (sval F G t e) eqn:Ev; [|discriminate].
-    rewrite (sval_ety F G t e Ev), opt_ty_eqb_refl.
-    unfold sval in Ev. apply andb_true_iff in Ev as [Ev _]. destruct t; try discriminate; exact H.
+    destruct (sval0 F G t e) eqn:Ev; [|discriminate].
+    rewrite (sval0_ety F G t e Ev), opt_ty_eqb_refl.
+    assert (is_none t = false) as ->; [|exact H].
+    unfold sval0, sval, ty_decl in Ev. destruct t; try reflexivity. discriminate Ev.
   - exact H.
   - (* if *)
     rewrite swt_stmt_SIf in H. rewrite wt_stmt_SIf'.
@@ -1773,4 +1783,28 @@ Proof.
   destruct (erase G a) as [e'|]; [|discriminate]. destruct (Sp.spec_tc e') as [[k s]|] eqn:Htc; [|discriminate].
   simpl in H. apply andb_true_iff in H as [H _]. exists e', s. split; [reflexivity|].
   unfold Sp.spec_check. rewrite Htc, H. reflexivity.
+Qed.
+
+(* the retyped empty literal of a value slot is the source expression [] / {} , which the
+   specification converts to every closed array / map type *)
+Lemma zero_spec_accepts G t e st : zero_lit t e = true -> sty_of t = Some st ->
+  exists e', erase G e = Some e' /\ exists shown, Sp.spec_check (S.CAssign st) e' = Sp.SAccept st shown.
+Proof.
+  unfold zero_lit. intros H Hst.
+  destruct e; try discriminate.
+  - destruct es; [|discriminate]. destruct t; try discriminate. exists (S.EArr []). split; [reflexivity|].
+    simpl in Hst. destruct (sty_of t) as [u|]; [|discriminate]. inversion Hst; subst st.
+    vm_compute. eauto.
+  - destruct pairs; [|discriminate]. destruct t; try discriminate. exists (S.EMap []). split; [reflexivity|].
+    simpl in Hst. destruct (sty_of t) as [u|]; [|discriminate]. inversion Hst; subst st.
+    vm_compute. eauto.
+Qed.
+
+(* an assignment to a target chain is judged like an assignment to a variable of the chain's type *)
+Lemma assign_to_as_assign G tg st root steps e' :
+  target_of G tg = Some (root, steps) -> target_sty G tg = Some st ->
+  Sp.spec_check (S.CAssignTo root steps) e' = Sp.spec_check (S.CAssign st) e'.
+Proof.
+  unfold target_sty. intros -> H. destruct (Sp.spec_steps steps) as [ks|] eqn:Ek; [|discriminate].
+  unfold Sp.spec_check. rewrite Ek, H. reflexivity.
 Qed.
